@@ -20,7 +20,7 @@ def gen_cases(ctx, n):
                            keys=("strings" if i % 2 else None),       # keys that need escaping in the generated source
                            values="mixed" if i % 5 == 4 else "int")  # 1 in 5 over mixed value types (twin oracle only)
         # function arguments: leaves that hold no definition at the end of the history
-        flat = lambda p: [p[0]] + [s[1] for s in p[1:]]
+        flat = mc.flat
         defined = set()
         for op in c["ops"]:
             if op[0] == "set":
@@ -36,7 +36,20 @@ def gen_cases(ctx, n):
             continue
         k = ctx.rng.choice([1, 1, 2, 2, 3, 4])
         args = ctx.rng.sample(free, min(k, len(free)))
-        c["ops"].append(["genfun", args, [mc.gen_value(ctx.rng, "mixed" if i % 5 == 4 else "int") for _ in args]])
+        vals = [mc.gen_value(ctx.rng, "mixed" if i % 5 == 4 else "int") for _ in args]
+        fst = [n for l, n in c["store"] if l == "f"][0]
+        called = [m_ for op in c["ops"] if op[0] == "set" and op[2][0] == "expr"
+                  for m_ in __import__("re").findall(r'\["callsum", (\["f", \["[ai]", "sum"\]\])', json.dumps(op[2][1]))]
+        if called and ctx.rng.random() < 0.7:
+            floc = json.loads(ctx.rng.choice(called))         # a function location some definition calls through
+            args = args + [floc]
+            vals = vals + ["FunSum2" if floc[1][1] == "sum" else "FunSum"]
+        elif ctx.rng.random() < 0.25:
+            # a function location as an argument of the generated function: another function object is put there, every
+            # definition calling through that location is re-evaluated with it
+            args = args + [["f", ["a" if fst["kind"] == "obj" else "i", "sum"]]]
+            vals = vals + [ctx.rng.choice(["FunSum", "FunSum2"])]
+        c["ops"].append(["genfun", args, vals])
         if ctx.rng.random() < 0.4:      # a second call of a new function on the updated state
             args2 = ctx.rng.sample(free, min(ctx.rng.choice([1, 2]), len(free)))
             c["ops"].append(["genfun", args2, [ctx.rng.randint(-9, 9) for _ in args2]])
@@ -92,6 +105,9 @@ def oracle(cases, obs):
                 fails.append((i, k, f"the generated source lists a consumer before its producer: {g['order']}")); break
             if g["err"] is not None and not g.get("cycle") and taint is None and not g.get("twin_err"):
                 fails.append((i, k, f"the generated function raised {g['err']}")); break
+            if g["err"] is None and g.get("own_differs") and g.get("equal") is not False and not g.get("cycle") and taint is None:
+                fails.append((i, k, "containers after the generated function differ from assigning the same values through THIS manager "
+                                    f"(a freshly loaded manager agrees with the function): {g['own_differs']}")); break
             if g["err"] is None and g.get("equal") is False and g.get("zero_only") and not g.get("cycle") and taint is None and not g.get("twin_err"):
                 ZERO_ONLY.append((i, k, f"containers differ from assigning through the manager in the sign of a zero: {g.get('diff')}")); continue
             if g["err"] is None and g.get("equal") is False and not g.get("cycle") and taint is None and not g.get("twin_err"):
